@@ -1268,6 +1268,48 @@ def gen_form_case(rng, doc) -> Dict[str, Any]:
     return dict(case, ops=out, form=doc["form"], form_matrix=doc["form_matrix"], form_kind=doc["form_kind"])
 
 
+def form_failures(case) -> List[Dict[str, Any]]:
+    """Property for a page that invokes the dangling form: at top level it must show exactly what the page's
+    own program (without the `Do`s) demands."""
+    plain = dict(case, ops=[o for o in case["ops"] if o[0] != "Do"])
+    try:
+        exp = spec_run(plain)
+    except OutsideDomain:
+        return []
+    got = run_impl([case])[0]
+    return diff_all(exp, visible(got))
+
+
+def form_input(case) -> Dict[str, Any]:
+    return {k: case[k] for k in ("rotate", "mediabox", "cs", "ops", "form", "form_matrix")}
+
+
+def report_form_failure(ctx: C.Ctx, case, d0) -> None:
+    sig = signature(d0)
+
+    def fails(c) -> Optional[Dict[str, Any]]:
+        try:
+            for d in form_failures(c):
+                if signature(d) == sig:
+                    return d
+        except Exception:  # noqa: BLE001
+            return None
+        return None
+
+    ops = C.ddmin(list(case["ops"]), lambda o: any(x[0] == "Do" for x in o) and fails(dict(case, ops=o)) is not None,
+                  max_tests=80)
+    small = dict(case, ops=ops)
+    if len(small["form"]) >= 2:
+        form = C.ddmin(list(small["form"]), lambda f: fails(dict(small, form=f)) is not None, max_tests=60)
+        small = dict(small, form=form)
+    d = fails(small)
+    if d is None:
+        small, d = case, d0
+    ctx.fail(C.Failure("a form XObject whose content ends with an unpainted path / changed graphics state leaks "
+                       "into the page that invokes it: " + "; ".join(WHAT.get(f, f) for f in d["fields"][:3]),
+                       form_input(small), d["expected"], d["got"], {"form": True, "fields": d["fields"]}))
+
+
 # --------------------------------------------------------------------------- running a batch
 
 def check_batch(ctx: C.Ctx, cases: List[Dict[str, Any]], in_domain: bool, seen_sigs: set) -> None:
@@ -1329,6 +1371,19 @@ def check_batch(ctx: C.Ctx, cases: List[Dict[str, Any]], in_domain: bool, seen_s
             elif lean_spec[i] != "outside-domain":
                 ctx.disagree("spec-domain", {k: case[k] for k in ("rotate", "mediabox", "cs", "ops")},
                              "outside-domain", lean_spec[i])
+        if case.get("form") is not None and "Do" in opnames and not isinstance(got, str):
+            plain = dict(case, ops=[o for o in case["ops"] if o[0] != "Do"])
+            try:
+                exp2 = spec_run(plain)
+            except OutsideDomain:
+                exp2 = None
+            if exp2 is not None:
+                for d in diff_all(exp2, visible(got)):
+                    ctx.branch("propfail:form:" + "+".join(d["fields"]))
+                    sig = ("form", signature(d))
+                    if sig not in seen_sigs and len(seen_sigs) < 12:
+                        seen_sigs.add(sig)
+                        report_form_failure(ctx, case, d)
         if dom and in_domain:
             for d in diff_all(exp, visible(got)):
                 ctx.branch("propfail:" + "+".join(d["fields"]))
@@ -1360,6 +1415,9 @@ def replay(ctx: C.Ctx, doc, from_corpus: bool = False) -> None:
         return
     case = {"rotate": inp.get("rotate", 0), "mediabox": inp.get("mediabox", ["0", "0", "612", "792"]),
             "cs": {k: list(v) for k, v in inp.get("cs", {}).items()}, "ops": inp["ops"]}
+    if inp.get("form") is not None:
+        case["form"] = inp["form"]
+        case["form_matrix"] = inp.get("form_matrix", ["1", "0", "0", "1", "0", "0"])
     ctx.branch("corpus" if from_corpus else "replay")
     check_batch(ctx, [case], True, set())
 
